@@ -34,6 +34,8 @@ Apply(e) ==
     [] e.op = "copy"       -> CopyTo(e.w, e.v)
     [] e.op = "clear"      -> ClearV(e.v)
     [] e.op = "listset"    -> ListSet(e.list, e.elems)
+    [] e.op = "listappend" -> ListAppend(e.list, e.e)
+    [] e.op = "listcut"    -> IF e.n <= Len(ls[e.list]) THEN ListCut(e.list, e.n) ELSE UNCHANGED hvars
     [] e.op = "listput"    -> IF e.i < Len(ls[e.list]) THEN ListPut(e.list, e.i, e.e) ELSE UNCHANGED hvars
     [] OTHER               -> UNCHANGED hvars
 
